@@ -1,6 +1,8 @@
 import BddVerif.Lemmas.ExactWalkC17
 import BddVerif.Lemmas.ExactWalkC07
 import BddVerif.Lemmas.ExactWalkC04
+import BddVerif.Lemmas.ExactWalkC07Complete
+import BddVerif.Lemmas.ExactWalkC04Complete
 /-! axiom audit: soundness of the drivers' exact memoised walks (Lemmas/ExactWalkC17.lean, ExactWalkC07.lean, ExactWalkC04.lean) -/
 #print axioms B.ExactWalk.forIn_inv_eq
 #print axioms B.ExactWalk.Loc.mono
@@ -60,3 +62,20 @@ open B B.Drive B.ExactWalk in
 #eval (C04.walk2 ex4X ex4L ex4R 2 (· && ·) none none none 4 (root ex4X) (root ex4L) (root ex4R) {}).1
 open B B.Drive B.ExactWalk in
 #eval (C04.walk3 ex4X ex4L ex4R ex4R 2 (fun a b c => a && b && c) (some 1) none none none 4 (root ex4X) (root ex4L) (root ex4R) (root ex4R) {}).1
+/-! rejecting answers are conclusive (ExactWalkC07Complete.lean, ExactWalkC04Complete.lean) -/
+#print axioms B.ExactWalk.norm_at
+#print axioms B.ExactWalk.kid_at
+#print axioms B.ExactWalk.term_not_E
+#print axioms B.ExactWalk.compositionExact_reject
+#print axioms B.ExactWalk.compositionExact_reject_wfoB
+#print axioms B.ExactWalk.varOf_lt_of_node
+#print axioms B.ExactWalk.kid3_at
+#print axioms B.ExactWalk.term3_not_E
+#print axioms B.ExactWalk.walk2_reject
+#print axioms B.ExactWalk.walk2_complete
+#print axioms B.ExactWalk.walk2_complete_driver
+#print axioms B.ExactWalk.kid4_at
+#print axioms B.ExactWalk.term4_not_E
+#print axioms B.ExactWalk.walk3_reject
+#print axioms B.ExactWalk.walk3_complete
+#print axioms B.ExactWalk.walk3_complete_driver
